@@ -103,7 +103,13 @@ def make_run(t):
                 if exc is None and not (-n <= i and got is items[i]):
                     ctx.fail("index-negative-wrong-item", f"{t}: b[{i}] returned an item that is not items[{i}]")
         # labels
-        for lab in ALPHABET + ["zz", "a  ", "Ab"] + [x + "\x00" for x in ALPHABET[:6]] + ["\x00", "a\x00\x00", "3", "0", "-1", "a\tb"]:
+        import unicodedata
+
+        # (also: other spellings of a label - decomposed accents, compatibility forms - which are OTHER strings; and absent keys made of
+        #  characters that mean something to string formatting)
+        respelled = [unicodedata.normalize(form, x) for x in ALPHABET for form in ("NFD", "NFKD", "NFKC") if unicodedata.normalize(form, x) != x]
+        for lab in ALPHABET + ["zz", "a  ", "Ab"] + [x + "\x00" for x in ALPHABET[:6]] + ["\x00", "a\x00\x00", "3", "0", "-1", "a\tb"] + respelled + \
+                ["%", "50%", "%s", "%d", "a%b", "%(x)s", "{}", "{0}", "{label}", "\\", "\\x", "$a", "*", "a*", "[a]", "^a$", "a|b"]:
             first = next((it for it in items if it.label == lab), None)
             try:
                 got = b[lab]
